@@ -1371,6 +1371,23 @@ def m_indexset(ex, m, args, callee):
     return Tup([len(st.items) - 1, True]) if k == 'insert_full' else True
 
 
+@model(r'^<impl str>::is_ascii$|^<impl char>::is_ascii$')
+def m_is_ascii(ex, m, args, callee):
+    a = val(args[0])
+    if isinstance(a, str):
+        return a.isascii()
+    if is_conc(a):
+        return int(a) < 128
+    if is_z3(a):
+        return simp(zint(a) < 128)
+    if isinstance(a, SymStr):
+        c = True
+        for ch in a.chars:
+            c = b_and(c, (ch < 128) if is_conc(ch) else simp(zint(ch) < 128))
+        return c
+    raise Unmodelled('is_ascii on an opaque string')
+
+
 @model(r'^<impl str>::eq_ignore_ascii_case$')
 def m_str_eq_ignore_case(ex, m, args, callee):
     a, b = val(args[0]), val(args[1])
@@ -1920,7 +1937,51 @@ def m_numint_bits_len(ex, m, args, callee):
         return abs(v).bit_length()
     r = ex.fresh('bits', 'Int')
     ex.assume(r >= 0)
+    # bits(v) = b  <=>  2^(b-1) <= |v| < 2^b   (stated for b up to 16; beyond that only "b > 16")
+    a = z3.If(zint(v) >= 0, zint(v), -zint(v))
+    ex.assume((r == 0) == (a == 0))
+    for b in range(1, 17):
+        ex.assume((r == b) == z3.And(a >= 2 ** (b - 1), a < 2 ** b))
     return r
+
+
+@model(r'^<NumInt as Signed>::(is_positive|is_negative)$')
+def m_numint_sign_test(ex, m, args, callee):
+    v = nv(ex, args[0])
+    return n_gt(v, 0) if m.group(1) == 'is_positive' else n_lt(v, 0)
+
+
+@model(r'^NumInt::trailing_zeros$')
+def m_numint_trailing_zeros(ex, m, args, callee):
+    """Some(k) with 2^k the largest power of two dividing v, None for 0; symbolic v: k is enumerated up to 12"""
+    v = nv(ex, args[0])
+    if is_conc(v):
+        if v == 0:
+            return none(ex)
+        k = 0
+        while v % 2 == 0:
+            v //= 2
+            k += 1
+        return some(ex, k)
+    if ex.branch(n_eq(v, 0), 'trailing_zeros of zero'):
+        return none(ex)
+    for k in range(0, 13):
+        if ex.branch(z3.And(zint(v) % (2 ** k) == 0, zint(v) % (2 ** (k + 1)) != 0), 'trailing_zeros = %d' % k):
+            return some(ex, k)
+    raise Unmodelled('trailing_zeros above 12 of a symbolic integer')
+
+
+@model(r'^<&?NumInt as Shr<(u8|u16|u32|u64|usize|i32|i64)>>::shr$')
+def m_numint_shr(ex, m, args, callee):
+    """num-bigint's >> rounds towards negative infinity"""
+    a = nv(ex, args[0])
+    k = simp(val(args[1]))
+    if not is_conc(k):
+        raise Unmodelled('big integer shifted by a symbolic amount')
+    k = int(k)
+    if is_conc(a):
+        return int(a) >> k
+    return zint(a) / (2 ** k)        # SMT integer division by a positive constant is the floor
 
 
 @model(r'^<NumInt as Num>::from_str_radix$')
@@ -2296,6 +2357,25 @@ def m_map_iter(ex, m, args, callee):
     if m.group(1) in ('BTreeSet', 'HashSet'):
         return MapIter(r, 'keys')
     return MapIter(r, {'values_mut': 'values'}.get(k, k))
+
+
+@model(r'^<(BTreeMap|HashMap|BTreeSet|HashSet)<.*> as Extend<.*>>::extend$')
+def m_map_extend(ex, m, args, callee):
+    """insert every item of the iterator (later items overwrite earlier keys, as std does)"""
+    mp = map_of(args[0])
+    it = into_iter_value(ex, args[1])
+    is_set = m.group(1) in ('BTreeSet', 'HashSet')
+    while True:
+        r = iter_next(ex, it)
+        if r.variant == 0:
+            break
+        item = r.fields[0]
+        if is_set:
+            mp.ent[freeze(item)] = [item, True, Tup([])]
+        else:
+            kv = val(item)
+            mp.ent[freeze(kv.fields[0])] = [kv.fields[0], True, kv.fields[1]]
+    return Tup([])
 
 
 @model(r'^<(BTreeMap|HashMap|BTreeSet|HashSet)<.*> as FromIterator<.*>>::from_iter$')
